@@ -390,6 +390,7 @@ Theorem xrollback_repaired_no_residue : forall fx st h st' w,
   f_rollback fx = true -> xrollback fx st h = XOk st' -> no_residue st w -> no_residue st' w.
 Proof.
   intros fx st h st' w Hfx H [Hbal Hug]. unfold xrollback in H. rewrite Hfx in H. cbn [negb andb] in H.
+  destruct (negb (f_rollback_order fx) && existsb _ (credits (x_w st))); [discriminate|].
   inversion H. subst st'. clear H. split; cbn [x_balrow x_ugame]; [assumption|].
   intros e He. apply in_app_or in He. destruct He as [He|He]; [apply Hug; assumption|].
   apply in_flat_map in He. destruct He as [c [Hc He]].
@@ -402,7 +403,10 @@ Qed.
 
 (* the repaired Rollback never panics *)
 Theorem xrollback_repaired_no_panic : forall fx st h, f_rollback fx = true -> xrollback fx st h <> XPanic.
-Proof. intros fx st h Hfx. unfold xrollback. rewrite Hfx. cbn [negb andb]. discriminate. Qed.
+Proof.
+  intros fx st h Hfx. unfold xrollback. rewrite Hfx. cbn [negb andb].
+  destruct (negb (f_rollback_order fx) && existsb _ (credits (x_w st))); discriminate.
+Qed.
 
 Lemma xconnect_block_rows : forall p n st b st',
   xconnect_block p n st b = XOk st' -> x_balrow st' = x_balrow st /\ x_ugame st' = x_ugame st.
